@@ -208,11 +208,11 @@ EXTRA = {
     'C01': ' Further structural clauses (DESIGN 3a): no C cipher routine reads through output-derived pointers in more places than the reference tree (O1); '
            'copies of one routine within a file agree (X5); field-by-field record copies are index/field consistent (X4); C functions named for a key size / '
            'direction call only routines of that key size / direction (K1). Element-insert ladders that assemble IV / nonce vectors keep the index/offset relation of their neighbours (N6); no computed vector value is stored twice unchanged to adjacent places (W6). job->src is used with its start offset (O2). Byte-order typestate: no vector register is read where it can arrive both byte-reflected and not (N7).',
-    'C02': ' Further clauses (DESIGN 3a): wrapper-constant matrix of the per-architecture hash entry points (X3), copy siblings (X5), field copies (X4). Insert ladders (N6); no computed vector value is stored twice unchanged to adjacent places - the second part of a split digest / tag store comes from another value (W6). Assembly padding: the length field goes into the block holding the 0x80 marker exactly when it fits behind it (P6). Byte-order typestate of vector registers (N7). The re-used padding block is overwritten from 0 up to the length field (P6).',
-    'C03': ' Further clause (DESIGN 3a): key-size / direction tokens of C wrappers and manager slots agree with their callers (K1). Insert ladders of the CCM / GCM / ChaCha20-Poly1305 units (N6, decides the nonce byte placement of CCM block B0); split stores (W6). Byte-order typestate of vector registers (N7).',
+    'C02': ' Further clauses (DESIGN 3a): wrapper-constant matrix of the per-architecture hash entry points (X3), copy siblings (X5), field copies (X4). Insert ladders (N6); no computed vector value is stored twice unchanged to adjacent places - the second part of a split digest / tag store comes from another value (W6). Assembly padding: the length field goes into the block holding the 0x80 marker exactly when it fits behind it (P6). Byte-order typestate of vector registers (N7). The re-used padding block is overwritten from 0 up to the length field (P6). Unrolled per-lane sequences name every lane once: displacements of one instruction form run in arithmetic progression (N10).',
+    'C03': ' Further clause (DESIGN 3a): key-size / direction tokens of C wrappers and manager slots agree with their callers (K1). Insert ladders of the CCM / GCM / ChaCha20-Poly1305 units (N6, decides the nonce byte placement of CCM block B0); split stores (W6). Byte-order typestate of vector registers (N7). Pending bytes kept in a context are flushed on a test of their own count (A2).',
     'C04': ' Further clauses (DESIGN 3a): lane association in 262 assembled multi-buffer routines - a vector stored through the pointer of lane m holds data of '
            'lane m only, followed through the transposition networks (unpack / shuffle / insert / extract modelled exactly on 32-bit slots, everything else '
-           'element-wise; unknown values never reported), and a per-lane pointer is written back into the array element it came from (V1/V2; decides K16).',
+           'element-wise; unknown values never reported), and a per-lane pointer is written back into the array element it came from (V1/V2; decides K16). Whole vectors of per-lane pointers are written back to the array and elements they were loaded from (V2 extended); unrolled per-lane sequences name every lane once (N10).',
     'C05': ' Further clauses (DESIGN 3a): a job is stamped BEING_PROCESSED on every path to the stage dispatch (Q7); contiguous-slot counts come from the ring '
            'offset they advance (Q9); the parameter guards of the queue and burst functions are those of the reference tree (Q8). A queue function that owns the empty-marker normalisation reaches every return through it or through a pure emptiness test (Q10). A flush handler that is given the job itself (custom stages) hands it back only if that stage was still to do (T11, decides K18).',
     'C06': ' Further clauses (DESIGN 3a): a stage handler is looked up from the suite id of the very job it is applied to, in the same expression (T7); '
@@ -224,7 +224,7 @@ EXTRA = {
     'C09': ' Further clauses (DESIGN 3a): job->src is used with its start offset by every entry point (O2), output-read discipline (O1), field copies (X4), '
            'handler lookup per job (T7).',
     'C11': ' Further clauses (DESIGN 3a): the 3GPP IV generators place BEARER / DIRECTION at the bit positions of the specifications and byte-swap COUNT / FRESH '
-           'whole, the f9 / EIA3 generators XOR the direction bit (H7, a table of the specification\'s positions in the checker); key-size tokens of the GCM pre-computation wrappers (K1). Each IV generator defines every byte of its IV and copies the repeated half from the half the specification names (H8). The architecture versions of the GHASH / GCM key pre-computation compute HashKey<<1 mod poly by the same expression over loads and constants (N9).',
+           'whole, the f9 / EIA3 generators XOR the direction bit (H7, a table of the specification\'s positions in the checker); key-size tokens of the GCM pre-computation wrappers (K1). Each IV generator defines every byte of its IV and copies the repeated half from the half the specification names (H8). The architecture versions of the GHASH / GCM key pre-computation compute HashKey<<1 mod poly by the same expression over loads and constants (N9). Every case of the over-long-key switch of imb_hmac_ipad_opad hashes the key over key_len (X8: case-sibling arguments).',
     'C13': ' Further clauses (DESIGN 3a): every C function scrubs at least as many distinct locals of each type as on the reference tree and whole-array scrubs '
            'cover the array (S11/S12); copies of one routine agree (X5). A flush routine wipes every lane place it copied key material into under a mask built from at least the same constructions as the copy mask (S13, lane-mask ladders of the x16 VAES managers). No routine issues the same store twice in a row (S14, decides K19); a one-hot lane mask OR-ed into a 16-lane wipe mask is moved with at least word width.',
     'C14': ' Further clauses (DESIGN 3a): a job is stamped BEING_PROCESSED before the stage dispatch on every path (J8); each failure keeps the error code the '
